@@ -8,9 +8,9 @@ def register(prop, J):
               "under permutations; 2400 seed-fixed (value, format) cases encoded in 4 fresh processes; non-trivial = some map / "
               "parameter set / key set with >= 2 entries; distinct by (type, format, value) or key set",
          jobs=[
-             J("determinism-v2", "v2", "codecprops", "^TestC09", checks=(6000, 300000), shards=(4, 16), prepare="prepare_codec",
+             J("determinism-v2", "v2", "codecprops", "^TestC09", checks=(6000, 1800000), shards=(4, 16), prepare="prepare_codec",
                extra_pkgs=["dyn", "gendrv"], timeout=(900, 3000)),
-             J("determinism-v1", "v1", "codecprops", "^TestC09", checks=(4000, 150000), shards=(4, 16), prepare="prepare_codec",
+             J("determinism-v1", "v1", "codecprops", "^TestC09", checks=(4000, 900000), shards=(4, 16), prepare="prepare_codec",
                extra_pkgs=["dyn", "gendrv"], timeout=(900, 3000)),
          ],
          level_text="byte identity of encodings across insertion orders, nil-vs-empty representations, repetitions (Go re-randomises map "
